@@ -94,6 +94,26 @@ def run(ctx):
             if T > W and W > 1:
                 ctx.mark_nontrivial(("s", T, W, N))
         impl_hashes = [impl_hashes_by_index.get(i, -1) for i in range(len(shapes))]
+        # ---- stream 1b: the same series handed over in other memory layouts (a legal ndarray is any view):
+        # every second row of a longer recording, a column range of a wider table, Fortran order, reversed rows, read-only
+        lay_idx = [int(i) for i in rng.choice(len(shapes), size=min(len(shapes), ctx.budget(120, 600)), replace=False)]
+        for i1 in lay_idx:
+            (T, W, N) = shapes[i1]
+            base, _ = tagged_series(2 * T + 1, N + 3, 7)
+            views = {"rows[::2]": base[::2][:T, :N] if N + 3 == N else base[::2, :][:T][:, :N],
+                     "cols[a:b]": base[:T, 2:2 + N], "fortran": np.asfortranarray(base[:T, :N]),
+                     "rows[::-1]": base[:T, :N][::-1], "both strided": base[1:2 * T:2, 1:1 + N]}
+            ro = base[:T, :N].copy()
+            ro.setflags(write=False)
+            views["read-only"] = ro
+            for lname, v in views.items():
+                case = {"T": T, "W": W, "N": N, "layout": lname}
+                with ctx.guard("stack_training_data", case):
+                    if v.shape != (T, N):
+                        raise AssertionError("harness: view shape %s" % (v.shape,))
+                    if not definition_holds(dp.stack_training_data(v, W), v, W):
+                        ctx.violation("monitor", "stacked cell differs from input row i+j for a %s view" % lname, {"case": case, "stream": "layout"})
+                ctx.count("layout")
         ctx.sample({"stream": "single", "T,W,N": shapes[0]})
         # ---- stream 2: several series
         multi = []
@@ -123,6 +143,13 @@ def run(ctx):
                 for d in series:
                     if not definition_holds(dp.stack_training_data(d, W), d, W):
                         ctx.violation("monitor", "stacked cell differs", {"case": case})
+                if len(series) > 1:
+                    # the same rows split differently in the next call (same total, same number of series): reversed order
+                    out_r = dp.stack_training_data_multiple_series(series[::-1], W)
+                    ref_r = np.vstack([dp.stack_training_data(d, W) for d in series[::-1]])
+                    if out_r.shape != ref_r.shape or not np.array_equal(out_r.view(np.uint64), ref_r.view(np.uint64)):
+                        ctx.violation("monitor", "joint stacking of the same series in reversed order is not the concatenation of the individual stackings",
+                                      {"case": dict(case, order="reversed, called right after the forward order")})
             multi_hashes.append(h)
             ctx.count("multi")
             if len(Ts) > 1 and len(set(Ts)) > 1:
